@@ -184,6 +184,10 @@ def run(tier, seed, replay=None):
         rest = [s for s in main if len(s["patch"]) > 1]
         rng.shuffle(rest)
         main = core_s + rest[:400]
+    elif len(main) > 60000:
+        # (the model has ~5e5 terminal states; replaying a fixed tenth of them through the real
+        # tool keeps the thorough tier to a few minutes)
+        main = [s for s in main if core.fnv(json.dumps(s, sort_keys=True).encode()) % 8 == 0]
     scen = main + extra
     jobs = []
     for s in scen:
